@@ -18,7 +18,7 @@ HCall(e) ==
        /\ lnow' = e.now /\ UNCHANGED <<lcfg, lq, lfd, lc>> /\ Acc
   ELSE IF e.api \in {"ghba", "gni"} THEN
        lr' = lr @@ (e.t :> [api |-> e.api, family |-> e.family, port |-> 0, name |-> "", lit |-> 0, exp |-> {}, sent |-> FALSE, sentq |-> {},
-                            rev |-> IF e.family = 4 THEN ReverseName4(e.addr) ELSE IF e.long = 1 THEN ReverseName6L(e.addr) ELSE ReverseName6(e.addr), ptr |-> {},
+                            rev |-> IF e.family = 4 THEN ReverseName4(e.addr) ELSE IF e.long = 1 THEN ReverseName6L(e.addr) ELSE IF e.long = 2 THEN ReverseName6X(e.addr) ELSE ReverseName6(e.addr), ptr |-> {},
                             hrev |-> HostsRev(e.family, e.addr, e.long)])
        /\ lnow' = e.now /\ UNCHANGED <<lcfg, lq, lfd, lc>> /\ Acc
   ELSE IF e.api \in {"setservers", "reinit"} THEN Stop
@@ -65,8 +65,20 @@ HRecv(e) ==
 Triple(x) == [m |-> x.a, ttl |-> x.ttl, f |-> x.f]
 PtrNames(r) == {"m" \o ToString(m) \o ".ptr.test" : m \in r.ptr}
 
+(* a reverse lookup that the library gives up as "not found" / "bad name" although DNS is in its lookup order, the
+   hosts database does not list the address, nothing can have been cached for it (no other request for the same
+   address in this history) and its question was never handed to a socket: the reverse-map name was not usable *)
+GaveUpUnasked(e) ==
+  /\ e.t \in DOMAIN lr /\ lr[e.t].api \in {"ghba", "gni"} /\ lr[e.t].rev # ""
+  /\ e.st \in {"ENOTFOUND", "EBADNAME"}
+  /\ "lookups" \in DOMAIN lcfg /\ lcfg.lookups \in {"b", "bf", "fb"}
+  /\ ~lr[e.t].sent /\ lr[e.t].hrev = ""
+  /\ \A t \in DOMAIN lr : t # e.t => lr[t].rev # lr[e.t].rev
+  /\ lq = <<>>
+
 HCbb(e) ==
-  IF e.t \notin DOMAIN lr \/ e.st # "SUCCESS" THEN Skip
+  IF GaveUpUnasked(e) THEN Rej("c13.reverse_lookup_gave_up_without_asking")
+  ELSE IF e.t \notin DOMAIN lr \/ e.st # "SUCCESS" THEN Skip
   ELSE LET r == lr[e.t] IN
        IF r.api = "gai" THEN
             LET got == {Triple(e.ai[i]) : i \in 1..Len(e.ai)} IN
